@@ -37,6 +37,7 @@ type ldScenario struct {
 	BulkKeys   int      `json:"bulkkeys"`   // keys requested by a BulkGet caller: 1 = {1}, otherwise {1,2}
 	BulkRef    int      `json:"bulkref"`    // BulkRefresh callers over keys {1,2}
 	InLoader   []string `json:"inloader"`   // writes performed by the first single-key loader run itself, before it returns
+	Expiry     int      `json:"expiry"`     // 1 = ExpiryWriting(1h); the writer kind "advance" moves the clock by 2h
 	OutSeq     []string `json:"outseq"`     // outcome of the i-th loader run (script replay of LoadRace.tla behaviours); then Outcomes at random
 	HGate      int      `json:"hgate"`      // 1 = the atomic deletion handler is a gate ("h.atomic"): user code inside the table computation
 }
@@ -168,6 +169,9 @@ func runLoadScenario(sc ldScenario) ldResult {
 	if sc.Refresh == 1 {
 		o.RefreshCalculator = RefreshWriting[int, int](time.Hour)
 	}
+	if sc.Expiry == 1 {
+		o.ExpiryCalculator = ExpiryWriting[int, int](time.Hour)
+	}
 	// asynchronous like the default executor, but a panicking reload must not take the test process down
 	var execN atomic.Int64
 	var namedOnce sync.Map
@@ -240,6 +244,11 @@ func runLoadScenario(sc ldScenario) ldResult {
 			c.SetMaximum(10)
 		case "invalidateAll":
 			c.InvalidateAll()
+		case "computecancel":
+			// a computation that decides to do nothing: no write, nothing cleared
+			c.Compute(1, func(old int, found bool) (int, ComputeOp) { return 0, CancelOp })
+		case "advance":
+			clk.now.Add(int64(2 * time.Hour)) // not a write: entries written before it expire (unswept)
 		}
 		note(ldEvent{T: "wret", Op: kind, K: 1, V: wv})
 	}
